@@ -22,8 +22,8 @@ import render
 from common import Check, run_tlc, run_oalv_parallel
 
 K = 4
-FAMILIES = {"quick": ["ranges", "uris", "xfers", "schemas", "recinst", "recgraphs2", "fnpos"],
-            "thorough": ["ranges", "uris", "xfers", "schemas", "recinst", "recgraphs2", "fnpos", "posshape"]}
+FAMILIES = {"quick": ["ranges", "uris", "xfers", "schemas", "recinst", "dynscope", "recgraphs2", "fnpos"],
+            "thorough": ["ranges", "uris", "xfers", "schemas", "recinst", "dynscope", "recgraphs2", "fnpos", "posshape"]}
 
 
 def compare_members(chk, fam, members, cases, obs):
